@@ -524,7 +524,7 @@ Proof.
   destruct (MI_MAX_ALLOC_SIZE <? raw) eqn:Em.
   - vm_compute. reflexivity.
   - apply N.ltb_ge in Em. destruct (LONG_MAX_ <? Z.of_N raw)%Z eqn:El; [|reflexivity].
-    apply Z.ltb_lt in El. exfalso. revert Em El. vm_compute (MI_MAX_ALLOC_SIZE). vm_compute (LONG_MAX_). lia.
+    apply Z.ltb_lt in El. exfalso. unfold MI_MAX_ALLOC_SIZE, LONG_MAX_ in *. lia.
 Qed.
 
 Lemma sat_final_mul size m : 0 < m ->
@@ -537,7 +537,7 @@ Proof.
   - apply N.leb_le in Eo. cbn [orb]. unfold sat_kib.
     replace (MI_MAX_ALLOC_SIZE <? size * m) with true.
     + vm_compute. reflexivity.
-    + symmetry. apply N.ltb_lt. revert Eo. rewrite W64_val. vm_compute (MI_MAX_ALLOC_SIZE). lia.
+    + symmetry. apply N.ltb_lt. rewrite W64_val in Eo. unfold MI_MAX_ALLOC_SIZE. lia.
   - apply N.leb_gt in Eo. rewrite N.mod_small by exact Eo. apply sat_final_small. exact Eo.
 Qed.
 
@@ -549,7 +549,7 @@ Proof.
   { destruct (v <? 0)%Z eqn:E; [apply Z.ltb_lt in E|apply Z.ltb_ge in E]; [rewrite Z.max_l by lia; reflexivity|rewrite Z.max_r by lia; reflexivity]. }
   rewrite Hsz. set (size := Z.to_N (Z.max 0 v)).
   assert (Hb : size < 2 ^ 63).
-  { unfold size. revert Hv. vm_compute (LONG_MAX_). vm_compute (LONG_MIN_). lia. }
+  { unfold size. unfold LONG_MAX_, LONG_MIN_ in Hv. lia. }
   fold (sat_kib (if (if hd0 e =? 75 then 1 else if hd0 e =? 77 then MI_KiB_ else if hd0 e =? 71 then MI_MiB_ else if hd0 e =? 84 then MI_GiB_ else 0) =? 0
                  then (size + 1023) / 1024
                  else size * (if hd0 e =? 75 then 1 else if hd0 e =? 77 then MI_KiB_ else if hd0 e =? 71 then MI_MiB_ else if hd0 e =? 84 then MI_GiB_ else 0))).
@@ -700,7 +700,7 @@ Qed.
 Lemma digit_props c : isdigit c = true -> (c =? 45) = false /\ (c =? 43) = false /\ c <> 0.
 Proof.
   unfold isdigit. intros H. apply andb_prop in H as [H1 H2]. apply N.leb_le in H1, H2.
-  repeat split; try (apply N.eqb_neq); lia.
+  split; [apply N.eqb_neq; lia|]. split; [apply N.eqb_neq; lia|lia].
 Qed.
 
 Lemma hd0_app_ne a b : a <> [] -> hd0 (a ++ b) = hd0 a.
@@ -837,13 +837,14 @@ Proof.
   rewrite (parse_value_num kib u Hc0 Et Ef). cbn zeta.
   destruct (suffix_cases kib suf Hsuf) as [Hd Hsb].
   destruct (grammar_scan ws sg ds suf Hws Hsg Hne Hds Hd) as (E1 & E2 & E3 & E4 & E5 & E6). fold u in E1, E2, E3.
-  rewrite E2, E6, E5. unfold scan_value. rewrite E2, E3, E4.
+  rewrite !E2, E6, E5. unfold scan_value. rewrite E3, E4.
   assert (Hsv : (if hd0 (sg ++ ds) =? 45 then (- decval ds)%Z else decval ds) = sign_apply sg (decval ds)).
   { unfold sign_apply. destruct Hsg as [->|[->| ->]]; [|reflexivity|reflexivity].
     cbn [app hd0]. pose proof (forallb_hd isdigit ds Hne Hds) as Hd0. destruct (digit_props _ Hd0) as (D45 & _). now rewrite D45. }
   rewrite Hsv. unfold suffix_b in Hsb. destruct kib.
-  - rewrite (nonul_hd0 _ (nonul_strip_tail _ (nonul_strip_unit suf _))), Hsb; [reflexivity|].
-    unfold u in Hn. unfold nonul in *. rewrite !forallb_app in Hn. now repeat (apply andb_prop in Hn as [_ Hn]).
+  - assert (Hns : nonul suf = true).
+    { unfold u in Hn. unfold nonul in *. rewrite !forallb_app in Hn. now repeat (apply andb_prop in Hn as [_ Hn]). }
+    rewrite (nonul_hd0 _ (nonul_strip_tail _ (nonul_strip_unit suf Hns))), Hsb. reflexivity.
   - destruct suf; [reflexivity|discriminate].
 Qed.
 
@@ -890,6 +891,30 @@ Definition set1 (t : table) (i : nat) (v : Z) : table :=
 Lemma guarded_distinct : Nat.eqb opt_guarded_min opt_guarded_max = false.
 Proof. reflexivity. Qed.
 
+Lemma option_set_fuel_S f t j v :
+  option_set_fuel (S f) t j v =
+  if negb (in_range t j) then Some t else
+  let t1 := set1 t j v in
+  if Nat.eqb j opt_guarded_min && (o_value (tget t1 opt_guarded_max) <? v)%Z then option_set_fuel f t1 opt_guarded_max v
+  else if Nat.eqb j opt_guarded_max && (v <? o_value (tget t1 opt_guarded_min))%Z then option_set_fuel f t1 opt_guarded_min v
+  else Some t1.
+Proof. reflexivity. Qed.
+
+(* the nested call: option j (the other guarded option) is set, the value of option i (= v) stops the recursion *)
+Lemma option_set_nested f t1 i j v :
+  i <> j -> (i = opt_guarded_min /\ j = opt_guarded_max \/ i = opt_guarded_max /\ j = opt_guarded_min) ->
+  o_value (tget t1 i) = v ->
+  option_set_fuel (S f) t1 j v = Some (if in_range t1 j then set1 t1 j v else t1).
+Proof.
+  intros Hij Hc Hv. rewrite option_set_fuel_S. destruct (in_range t1 j) eqn:Rj; cbn [negb]; [|reflexivity]. cbn zeta.
+  assert (Hk : o_value (tget (set1 t1 j v) i) = v) by (unfold set1; rewrite tget_tset_ne by congruence; exact Hv).
+  destruct Hc as [[-> ->]|[-> ->]].
+  - replace (Nat.eqb opt_guarded_max opt_guarded_min) with false by (symmetry; apply Nat.eqb_neq; congruence).
+    rewrite Nat.eqb_refl, Hk, Z.ltb_irrefl. reflexivity.
+  - rewrite Nat.eqb_refl, Hk, Z.ltb_irrefl. cbn [andb].
+    replace (Nat.eqb opt_guarded_min opt_guarded_max) with false by (symmetry; apply Nat.eqb_neq; congruence). reflexivity.
+Qed.
+
 Lemma option_set_spec t i v : in_range t i = true ->
   exists t', option_set t i v = Some t' /\ length t' = length t /\
              o_value (tget t' i) = v /\ o_init (tget t' i) = INITIALIZED /\
@@ -897,39 +922,28 @@ Lemma option_set_spec t i v : in_range t i = true ->
 Proof.
   intros Hr. pose proof Hr as Hlt. apply in_range_lt in Hlt.
   pose proof guarded_distinct as Hgd. apply Nat.eqb_neq in Hgd.
-  unfold option_set. cbn [option_set_fuel]. rewrite Hr. cbn [negb]. fold (set1 t i v).
+  unfold option_set. rewrite option_set_fuel_S, Hr. cbn [negb]. cbn zeta.
   assert (Hi : tget (set1 t i v) i = mkopt v INITIALIZED (o_name (tget t i)) (o_legacy (tget t i))) by (apply tget_tset_eq; exact Hlt).
   assert (Hl1 : length (set1 t i v) = length t) by apply length_tset.
   assert (Ho1 : forall j, j <> i -> tget (set1 t i v) j = tget t j) by (intros j Hj; apply tget_tset_ne; congruence).
+  assert (Hnest : forall j, i <> j ->
+            exists t', (if in_range (set1 t i v) j then set1 (set1 t i v) j v else set1 t i v) = t' /\ length t' = length t /\
+              o_value (tget t' i) = v /\ o_init (tget t' i) = INITIALIZED /\
+              (forall k, k <> i -> k <> j -> tget t' k = tget t k)).
+  { intros j Hij. eexists. split; [reflexivity|]. destruct (in_range (set1 t i v) j).
+    - unfold set1 at 1 3 5 7. rewrite length_tset, !tget_tset_ne by congruence. rewrite Hi, Hl1. repeat split.
+      intros k K1 K2. unfold set1 at 1. rewrite tget_tset_ne by congruence. now apply Ho1.
+    - rewrite Hi, Hl1. repeat split. intros k K1 _. now apply Ho1. }
   destruct (Nat.eqb i opt_guarded_min && (o_value (tget (set1 t i v) opt_guarded_max) <? v)%Z) eqn:C1.
   - apply andb_prop in C1 as [Ei _]. apply Nat.eqb_eq in Ei.
-    unfold in_range at 1. rewrite Hl1.
-    destruct (Nat.ltb opt_guarded_max (length t)) eqn:Rm; cbn [negb].
-    + fold (set1 (set1 t i v) opt_guarded_max v).
-      assert (Hm : tget (set1 (set1 t i v) opt_guarded_max v) i = tget (set1 t i v) i) by (apply tget_tset_ne; congruence).
-      replace (Nat.eqb opt_guarded_max opt_guarded_min) with false by (symmetry; apply Nat.eqb_neq; congruence).
-      rewrite Nat.eqb_refl. cbn [andb]. rewrite <- Ei at 2. rewrite Hm, Hi. cbn [o_value]. rewrite Z.ltb_irrefl.
-      exists (set1 (set1 t i v) opt_guarded_max v). repeat split.
-      * unfold set1 at 1. now rewrite length_tset.
-      * now rewrite Hm, Hi.
-      * now rewrite Hm, Hi.
-      * intros j J1 J2 J3. unfold set1 at 1. rewrite tget_tset_ne by congruence. now apply Ho1.
-    + exists (set1 t i v). repeat split; try assumption; try (now rewrite Hi). intros j J1 _ _. now apply Ho1.
+    rewrite (option_set_nested 1 (set1 t i v) i opt_guarded_max v); [|congruence|left; split; [exact Ei|reflexivity]|now rewrite Hi].
+    destruct (Hnest opt_guarded_max ltac:(congruence)) as (t' & <- & A & B & C & D).
+    eexists. split; [reflexivity|]. repeat split; try assumption. intros j J1 J2 J3. now apply D.
   - destruct (Nat.eqb i opt_guarded_max && (v <? o_value (tget (set1 t i v) opt_guarded_min))%Z) eqn:C2.
     + apply andb_prop in C2 as [Ei _]. apply Nat.eqb_eq in Ei.
-      unfold in_range at 1. rewrite Hl1.
-      destruct (Nat.ltb opt_guarded_min (length t)) eqn:Rm; cbn [negb].
-      * fold (set1 (set1 t i v) opt_guarded_min v).
-        assert (Hm : tget (set1 (set1 t i v) opt_guarded_min v) i = tget (set1 t i v) i) by (apply tget_tset_ne; congruence).
-        rewrite Nat.eqb_refl. cbn [andb]. rewrite <- Ei at 2. rewrite Hm, Hi. cbn [o_value]. rewrite Z.ltb_irrefl.
-        replace (Nat.eqb opt_guarded_min opt_guarded_max) with false by (symmetry; apply Nat.eqb_neq; congruence).
-        cbn [andb].
-        exists (set1 (set1 t i v) opt_guarded_min v). repeat split.
-        -- unfold set1 at 1. now rewrite length_tset.
-        -- now rewrite Hm, Hi.
-        -- now rewrite Hm, Hi.
-        -- intros j J1 J2 J3. unfold set1 at 1. rewrite tget_tset_ne by congruence. now apply Ho1.
-      * exists (set1 t i v). repeat split; try assumption; try (now rewrite Hi). intros j J1 _ _. now apply Ho1.
+      rewrite (option_set_nested 1 (set1 t i v) i opt_guarded_min v); [|congruence|right; split; [exact Ei|reflexivity]|now rewrite Hi].
+      destruct (Hnest opt_guarded_min ltac:(congruence)) as (t' & <- & A & B & C & D).
+      eexists. split; [reflexivity|]. repeat split; try assumption. intros j J1 J2 J3. now apply D.
     + exists (set1 t i v). repeat split; try assumption; try (now rewrite Hi). intros j J1 _ _. now apply Ho1.
 Qed.
 
@@ -998,16 +1012,16 @@ Lemma toupper_byte c : c < 256 -> toupper c < 256.
 Proof. unfold toupper. destruct ((97 <=? c) && (c <=? 122)); lia. Qed.
 Lemma nonul_map_toupper l : nonul l = true -> nonul (map toupper l) = true.
 Proof.
-  induction l as [|c r IH]; cbn; [reflexivity|]. intros H. apply andb_prop in H as [H1 H2]. rewrite IH by exact H2.
+  unfold nonul. induction l as [|c r IH]; cbn; [reflexivity|]. intros H. apply andb_prop in H as [H1 H2]. rewrite IH by exact H2.
   apply negb_true_iff, N.eqb_neq in H1. apply toupper_nz in H1. apply N.eqb_neq in H1. now rewrite H1.
 Qed.
 Lemma isbytes_map_toupper l : isbytes l = true -> isbytes (map toupper l) = true.
 Proof.
-  induction l as [|c r IH]; cbn; [reflexivity|]. intros H. apply andb_prop in H as [H1 H2]. rewrite IH by exact H2.
+  unfold isbytes. induction l as [|c r IH]; cbn; [reflexivity|]. intros H. apply andb_prop in H as [H1 H2]. rewrite IH by exact H2.
   apply N.ltb_lt in H1. apply toupper_byte in H1. apply N.ltb_lt in H1. now rewrite H1.
 Qed.
 Lemma nonul_takeN l : forall n, nonul l = true -> nonul (takeN n l) = true.
-Proof. induction l as [|c r IH]; intros n H; cbn in *; [reflexivity|]. destruct (n =? 0); [reflexivity|]. cbn. apply andb_prop in H as [H1 H2]. now rewrite H1, IH. Qed.
+Proof. unfold nonul. induction l as [|c r IH]; intros n H; cbn in *; [reflexivity|]. destruct (n =? 0); [reflexivity|]. cbn. apply andb_prop in H as [H1 H2]. now rewrite H1, IH. Qed.
 Lemma nonul_nth l : forall i, nonul l = true -> i < lenN l -> nthN l i <> 0.
 Proof.
   induction l as [|c r IH]; intros i H Hi; cbn in *; [lia|]. apply andb_prop in H as [H1 H2].
@@ -1076,7 +1090,697 @@ Proof.
   - intros j Hj. rewrite lenN_map, lenN_takeN in Hj. fold (bget (bput b' len 0) j).
     rewrite bget_bput_ne by (unfold len; lia). rewrite P by (unfold len; lia).
     rewrite nthN_map_toupper by (rewrite lenN_takeN; lia). rewrite nthN_takeN by lia.
-    f_equal. unfold v, bstr. rewrite Hd0. rewrite nthN_cstr; [reflexivity|]. fold (bstr s 0). unfold bstr. rewrite Hd0. fold v. unfold v, bstr in Hj. rewrite Hd0 in Hj. lia.
+    f_equal. assert (Hv : v = cstr (bdata s)) by (unfold v, bstr; now rewrite Hd0).
+    rewrite Hv in Hj |- *. rewrite nthN_cstr by lia. reflexivity.
   - rewrite lenN_map, lenN_takeN. fold (bget (bput b' len 0) (N.min 64 (lenN v))).
     replace (N.min 64 (lenN v)) with len by (unfold len; lia). apply bget_bput_eq. lia.
 Qed.
+
+Definition defaulted (t : table) (i : nat) : table :=
+  tset t i (mkopt (o_value (tget t i)) DEFAULTED (o_name (tget t i)) (o_legacy (tget t i))).
+
+Lemma apply_pres_cases t i r : in_range t i = true ->
+  (r = PInvalid -> apply_pres t i r = Some (defaulted t i)) /\
+  (r <> PInvalid -> exists t', apply_pres t i r = Some t' /\ o_init (tget t' i) = INITIALIZED).
+Proof.
+  intros Hr. split.
+  - intros ->. reflexivity.
+  - intros Hne. destruct r as [v|v|]; [| |congruence]; cbn [apply_pres].
+    + eexists. split; [reflexivity|]. rewrite tget_tset_eq by (now apply in_range_lt). reflexivity.
+    + destruct (option_set_spec t i v Hr) as (t' & Hs & _ & _ & Hi & _). exists t'. split; assumption.
+Qed.
+
+Lemma malformed_keeps_default_lemma t i s b :
+  in_range t i = true -> fault s = false -> fault b = false -> 65 <= blen b ->
+  lenN (bstr s 0) <= 64 -> isbytes (bstr s 0) = true ->
+  let u := map toupper (bstr s 0) in
+  let '(r, s', b') := option_init_found t i s b in
+  fault s' = false /\ fault b' = false /\
+  (malformed_b (has_size_in_kib i) u = true ->
+     exists t', r = Some t' /\ o_value (tget t' i) = o_value (tget t i) /\ o_init (tget t' i) = DEFAULTED /\
+                forall j, j <> i -> tget t' j = tget t j) /\
+  (malformed_b (has_size_in_kib i) u = false -> exists t', r = Some t' /\ o_init (tget t' i) = INITIALIZED).
+Proof.
+  intros Hr Fs Fb Lb Hlen Hby. cbn zeta.
+  pose proof (option_init_found_spec t i s b Fs Fb Lb) as H.
+  destruct (option_init_found t i s b) as [[r s'] b'].
+  destruct H as (Hres & Fs' & Fb' & _). split; [exact Fs'|]. split; [exact Fb'|].
+  rewrite (takeN_all _ 64 Hlen) in Hres.
+  set (u := map toupper (bstr s 0)) in *.
+  assert (Hun : nonul u = true) by (apply nonul_map_toupper, nonul_cstr).
+  assert (Hub : isbytes u = true) by (apply isbytes_map_toupper, Hby).
+  pose proof (parse_invalid_iff (has_size_in_kib i) u Hun Hub) as Hiff.
+  destruct (apply_pres_cases t i (parse_value (has_size_in_kib i) u) Hr) as [Hinv Hok].
+  split.
+  - intros Hm. apply Hiff in Hm. exists (defaulted t i). rewrite Hres. split; [now apply Hinv|].
+    unfold defaulted. apply in_range_lt in Hr. rewrite tget_tset_eq by exact Hr. repeat split.
+    intros j Hj. apply tget_tset_ne. congruence.
+  - intros Hm. rewrite Hres. apply Hok. intros Hp. apply Hiff in Hp. congruence.
+Qed.
+
+(* ------------------------------------------------------------------------------------------ *)
+(* _mi_vsnprintf                                                                               *)
+(* ------------------------------------------------------------------------------------------ *)
+Lemma outc_spec c b p e n : okb b n -> e < n ->
+  let '(b', p') := outc c b p e in okb b' n /\ p <= p' /\ (p <= e -> p' <= e).
+Proof.
+  intros Hb He. unfold outc. destruct (e <=? p) eqn:E.
+  - repeat split; try apply Hb; lia.
+  - apply N.leb_gt in E. split; [apply okb_bput; [exact Hb|lia]|]. lia.
+Qed.
+
+Lemma outs_spec s : forall b p e n, okb b n -> e < n ->
+  let '(b', p') := outs s b p e in okb b' n /\ p <= p' /\ (p <= e -> p' <= e).
+Proof.
+  induction s as [|c r IH]; intros b p e n Hb He; cbn [outs].
+  - repeat split; try apply Hb; lia.
+  - destruct (c =? 0); [repeat split; try apply Hb; lia|].
+    destruct (p <? e) eqn:E; [|repeat split; try apply Hb; lia].
+    apply N.ltb_lt in E. specialize (IH (bput b p c) (p + 1) e n (okb_bput b n p c Hb ltac:(lia)) He).
+    destruct (outs r (bput b p c) (p + 1) e) as [b' p']. destruct IH as (O & L1 & L2). repeat split; [apply O|apply O|lia|lia].
+Qed.
+
+Lemma fill_loop_spec k : forall fill b p n, okb b n -> p + N.of_nat k <= n ->
+  let '(b', p') := fill_loop k fill b p in okb b' n /\ p' = p + N.of_nat k.
+Proof.
+  induction k as [|k IH]; intros fill b p n Hb Hp; cbn [fill_loop].
+  - split; [exact Hb|lia].
+  - specialize (IH fill (bput b p fill) (p + 1) n (okb_bput b n p fill Hb ltac:(lia)) ltac:(lia)).
+    destruct (fill_loop k fill (bput b p fill) (p + 1)) as [b' p']. destruct IH as [O E]. split; [exact O|lia].
+Qed.
+
+Lemma out_fill_spec fill len b p e n : okb b n -> e < n -> p <= e ->
+  let '(b', p') := out_fill fill len b p e in okb b' n /\ p <= p' /\ p' <= e.
+Proof.
+  intros Hb He Hp. unfold out_fill.
+  pose proof (fill_loop_spec (N.to_nat (N.min len (e - p))) fill b p n Hb ltac:(lia)) as H.
+  destruct (fill_loop _ fill b p) as [b' p']. destruct H as [O E]. split; [exact O|lia].
+Qed.
+
+Lemma digits_loop_total fuel : forall x base b p e, x < 2 ^ N.of_nat fuel -> 2 <= base ->
+  exists r, digits_loop fuel x base b p e = Some r.
+Proof.
+  induction fuel as [|f IH]; intros x base b p e Hx Hb.
+  - cbn in Hx. assert (x = 0) by lia. subst. cbn. eauto.
+  - cbn [digits_loop]. destruct (x =? 0); [eauto|].
+    destruct (outc (digit_char (x mod base)) b p e) as [b' p']. apply IH; [|exact Hb].
+    rewrite Nat2N.inj_succ, N.pow_succ_r' in Hx.
+    apply N.div_lt_upper_bound; [lia|]. nia.
+Qed.
+
+Lemma digits_loop_spec fuel : forall x base b p e n r, okb b n -> e < n -> p <= e ->
+  digits_loop fuel x base b p e = Some r -> okb (fst r) n /\ p <= snd r /\ snd r <= e.
+Proof.
+  induction fuel as [|f IH]; intros x base b p e n r Hb He Hp; cbn [digits_loop].
+  - destruct (x =? 0); [|discriminate]. intros H. inversion H. cbn. repeat split; try apply Hb; lia.
+  - destruct (x =? 0); [intros H; inversion H; cbn; repeat split; try apply Hb; lia|].
+    pose proof (outc_spec (digit_char (x mod base)) b p e n Hb He) as Ho.
+    destruct (outc (digit_char (x mod base)) b p e) as [b' p']. destruct Ho as (O & L1 & L2).
+    intros H. apply (IH _ _ _ _ _ n) in H; try assumption; [|lia]. destruct H as (A & B & C). repeat split; [apply A|apply A|lia|lia].
+Qed.
+
+Lemma rev_loop_spec k : forall i start len b n, okb b n -> start + len <= n -> i + N.of_nat k <= len ->
+  okb (rev_loop k i start len b) n.
+Proof.
+  induction k as [|k IH]; intros i start len b n Hb Hs Hi; cbn [rev_loop]; [exact Hb|].
+  destruct Hb as [F L].
+  rewrite bread_in by lia. rewrite bread_in by lia.
+  apply IH; [|exact Hs|lia].
+  apply okb_bput; [apply okb_bput; [split; assumption|lia]|lia].
+Qed.
+
+Lemma out_num_total x base prefix b p e : x < W64 -> 2 <= base ->
+  exists r, out_num x base prefix b p e = Some r.
+Proof.
+  intros Hx Hb. unfold out_num. destruct ((x =? 0) || (base =? 0) || (16 <? base)).
+  - destruct (negb (prefix =? 0)); [destruct (outc prefix b p e)|]; eauto.
+  - destruct (digits_loop_total 64 x base b p e) as [[b' p'] ->]; [exact Hx|exact Hb|].
+    destruct (negb (prefix =? 0)); [destruct (outc prefix b' p' e)|]; eauto.
+Qed.
+
+Lemma out_num_spec x base prefix b p e n r : okb b n -> e < n -> p <= e ->
+  out_num x base prefix b p e = Some r -> okb (fst r) n /\ p <= snd r /\ snd r <= e.
+Proof.
+  intros Hb He Hp. unfold out_num. destruct ((x =? 0) || (base =? 0) || (16 <? base)).
+  - assert (H1 : let '(b1, p1) := (if negb (prefix =? 0) then outc prefix b p e else (b, p)) in okb b1 n /\ p <= p1 /\ p1 <= e).
+    { destruct (negb (prefix =? 0)); [|repeat split; try apply Hb; lia].
+      pose proof (outc_spec prefix b p e n Hb He) as H. destruct (outc prefix b p e). destruct H as (A & B & C). repeat split; [apply A|apply A|lia|lia]. }
+    destruct (if negb (prefix =? 0) then outc prefix b p e else (b, p)) as [b1 p1]. destruct H1 as (O1 & L1 & L2).
+    pose proof (outc_spec 48 b1 p1 e n O1 He) as H. destruct (outc 48 b1 p1 e) as [b2 p2]. destruct H as (A & B & C).
+    intros E. inversion E. cbn. repeat split; [apply A|apply A|lia|lia].
+  - destruct (digits_loop 64 x base b p e) as [[b1 p1]|] eqn:Ed; [|discriminate].
+    apply (digits_loop_spec 64 _ _ _ _ _ n) in Ed; try assumption. cbn in Ed. destruct Ed as (O1 & L1 & L2).
+    assert (H2 : let '(b2, p2) := (if negb (prefix =? 0) then outc prefix b1 p1 e else (b1, p1)) in okb b2 n /\ p1 <= p2 /\ p2 <= e).
+    { destruct (negb (prefix =? 0)); [|repeat split; try apply O1; lia].
+      pose proof (outc_spec prefix b1 p1 e n O1 He) as H. destruct (outc prefix b1 p1 e). destruct H as (A & B & C). repeat split; [apply A|apply A|lia|lia]. }
+    destruct (if negb (prefix =? 0) then outc prefix b1 p1 e else (b1, p1)) as [b2 p2]. destruct H2 as (O2 & M1 & M2).
+    intros E. inversion E. cbn. split; [|lia].
+    apply rev_loop_spec; [exact O2|lia|].
+    assert ((p2 - p) / 2 <= p2 - p) by (apply N.div_le_upper_bound; lia). lia.
+Qed.
+
+Lemma move_loop_spec k : forall i start len extra b n, okb b n -> 1 <= i -> start + len + extra < n ->
+  okb (move_loop k i start len extra b) n.
+Proof.
+  induction k as [|k IH]; intros i start len extra b n Hb Hi Hs; cbn [move_loop]; [exact Hb|].
+  destruct Hb as [F L]. rewrite bread_in by lia.
+  apply IH; [|lia|exact Hs]. apply okb_bput; [split; assumption|lia].
+Qed.
+
+Lemma fillat_loop_spec k : forall i start fill b n, okb b n -> start + i + N.of_nat k <= n ->
+  okb (fillat_loop k i start fill b) n.
+Proof.
+  induction k as [|k IH]; intros i start fill b n Hb Hs; cbn [fillat_loop]; [exact Hb|].
+  apply IH; [apply okb_bput; [exact Hb|lia]|lia].
+Qed.
+
+Lemma out_alignright_spec base fill start len extra e b n : okb b n -> e < n ->
+  base + start + len + extra < W64 -> okb (out_alignright base fill start len extra e b) n.
+Proof.
+  intros Hb He Hw. unfold out_alignright. destruct ((len =? 0) || (extra =? 0)); [exact Hb|].
+  apply N.ltb_lt in Hw. rewrite Hw.
+  destruct (e <=? start + len + extra) eqn:E; [exact Hb|]. apply N.leb_gt in E.
+  apply fillat_loop_spec; [apply move_loop_spec; [exact Hb|lia|lia]|lia].
+Qed.
+
+Lemma fill_align_spec base ar fill start width b out e n : okb b n -> e < n -> start <= out -> out <= e ->
+  base + n + width < W64 ->
+  let '(b', out') := fill_align base ar fill start width b out e in okb b' n /\ out' <= e.
+Proof.
+  intros Hb He Hs Ho Hw. unfold fill_align. destruct (out - start <? width) eqn:E; [|split; [exact Hb|exact Ho]].
+  apply N.ltb_lt in E.
+  pose proof (out_fill_spec fill (width - (out - start)) b out e n Hb He Ho) as H.
+  destruct (out_fill fill (width - (out - start)) b out e) as [b1 out1]. destruct H as (O1 & L1 & L2).
+  split; [|exact L2]. destruct (ar && (out1 <=? e)); [|exact O1].
+  apply out_alignright_spec; [exact O1|exact He|lia].
+Qed.
+
+(* each conversion: always a result (for 64-bit argument slots), and it stays inside the buffer *)
+Lemma pop_int_lt args : fst (pop_int args) < W64.
+Proof. unfold pop_int. destruct args as [|[s| |v] r]; cbn; try (rewrite W64_val; lia). apply wrap_lt. Qed.
+
+Lemma sext64_abs v : v < W64 -> Z.abs_N (sext64 v) < W64.
+Proof. intros H. unfold sext64. rewrite W64_val in *. destruct (v <? 9223372036854775808) eqn:E; [apply N.ltb_lt in E|apply N.ltb_ge in E]; lia. Qed.
+Lemma sext32_abs v : Z.abs_N (sext32 v) < W64.
+Proof.
+  unfold sext32. cbn zeta. rewrite W64_val. assert (v mod 4294967296 < 4294967296) by (apply N.mod_lt; lia).
+  set (w := v mod 4294967296) in *. clearbody w.
+  destruct (w <? 2147483648) eqn:E; [apply N.ltb_lt in E|apply N.ltb_ge in E]; lia.
+Qed.
+
+Definition conv_ok (n e out maxw : N) (r : conv_result) : Prop :=
+  match r with
+  | None => False
+  | Some (b', out', _, start, width, _) => okb b' n /\ start <= out' /\ out' <= e /\ width <= N.max maxw 16
+  end.
+
+Lemma conv_string_spec d args b out e n : okb b n -> e < n -> out <= e ->
+  conv_ok n e out (d_width d) (conv_string d args b out e).
+Proof.
+  intros Hb He Ho. unfold conv_string. destruct (pop_str args) as [[s|] args'].
+  - pose proof (outs_spec s b out e n Hb He) as H. destruct (outs s b out e) as [b' out']. destruct H as (A & B & C).
+    cbn. repeat split; [apply A|apply A|lia|lia|lia].
+  - cbn. repeat split; try apply Hb; lia.
+Qed.
+
+Lemma conv_unsigned_spec d args b out e n : okb b n -> e < n -> out <= e ->
+  conv_ok n e out (d_width d) (conv_unsigned d args b out e).
+Proof.
+  intros Hb He Ho. unfold conv_unsigned. pose proof (pop_int_lt args) as Hv.
+  destruct (pop_int args) as [v args']. cbn [fst] in Hv.
+  set (c := d_conv d).
+  set (x := if c =? 112 then v else if is64 (d_numtype d) then v else v mod 4294967296).
+  assert (Hx : x < W64).
+  { unfold x. destruct (c =? 112); [exact Hv|]. destruct (is64 _); [exact Hv|].
+    rewrite W64_val. assert (v mod 4294967296 < 4294967296) by (apply N.mod_lt; lia). lia. }
+  assert (H1 : let '(b1, out1) := (if c =? 112 then outs [48; 120] b out e else (b, out)) in okb b1 n /\ out <= out1 /\ out1 <= e).
+  { destruct (c =? 112); [|repeat split; try apply Hb; lia].
+    pose proof (outs_spec [48; 120] b out e n Hb He) as H. destruct (outs [48; 120] b out e). destruct H as (A & B & C). repeat split; [apply A|apply A|lia|lia]. }
+  destruct (if c =? 112 then outs [48; 120] b out e else (b, out)) as [b1 out1]. destruct H1 as (O1 & L1 & L2).
+  set (w0 := if c =? 112 then if 2 <=? d_width d then d_width d - 2 else 0 else d_width d).
+  assert (Hw0 : w0 <= d_width d). { unfold w0. destruct (c =? 112); [|lia]. destruct (2 <=? d_width d); lia. }
+  set (wf := if (w0 =? 0) && ((c =? 120) || (c =? 112))
+             then (let width := if c =? 112 then 2 * (if x <=? UINT32_MAX_ then 4 else if N.shiftr x 16 <=? UINT32_MAX_ then 6 else 8) else w0 in
+                   ((if width =? 0 then 2 else width), 48))
+             else (w0, d_fill d)).
+  assert (Hwf : fst wf <= N.max (d_width d) 16).
+  { unfold wf. destruct ((w0 =? 0) && ((c =? 120) || (c =? 112))) eqn:E; cbn [fst]; [|lia].
+    apply andb_prop in E as [E0 _]. apply N.eqb_eq in E0. rewrite E0.
+    destruct (c =? 112).
+    - destruct (x <=? UINT32_MAX_); [cbn; lia|]. destruct (N.shiftr x 16 <=? UINT32_MAX_); cbn; lia.
+    - cbn. lia. }
+  destruct wf as [width fill]. cbn [fst] in Hwf.
+  destruct (out_num_total x (if (c =? 120) || (c =? 112) then 16 else 10) (d_numplus d) b1 out1 e Hx) as [[b2 out2] E2].
+  { destruct ((c =? 120) || (c =? 112)); lia. }
+  rewrite E2. apply (out_num_spec _ _ _ _ _ _ n) in E2; try assumption. cbn in E2. destruct E2 as (O2 & M1 & M2).
+  cbn. repeat split; [apply O2|apply O2|lia|lia|lia].
+Qed.
+
+Lemma conv_signed_spec d args b out e n : okb b n -> e < n -> out <= e ->
+  conv_ok n e out (d_width d) (conv_signed d args b out e).
+Proof.
+  intros Hb He Ho. unfold conv_signed. pose proof (pop_int_lt args) as Hv.
+  destruct (pop_int args) as [v args']. cbn [fst] in Hv.
+  set (x := if is64 (d_numtype d) then sext64 v else sext32 v).
+  assert (Hx : Z.abs_N x < W64). { unfold x. destruct (is64 _); [now apply sext64_abs|apply sext32_abs]. }
+  set (pre := if (x <? 0)%Z then 45 else if negb (d_numplus d =? 0) then d_numplus d else 0).
+  destruct (out_num_total (Z.abs_N x) 10 pre b out e Hx ltac:(lia)) as [[b2 out2] E2].
+  rewrite E2. apply (out_num_spec _ _ _ _ _ _ n) in E2; try assumption. cbn in E2. destruct E2 as (O2 & M1 & M2).
+  cbn. repeat split; [apply O2|apply O2|lia|lia|lia].
+Qed.
+
+Lemma conv_other_spec d args b out e n : okb b n -> e < n -> out <= e ->
+  conv_ok n e out (d_width d) (conv_other d args b out e).
+Proof.
+  intros Hb He Ho. unfold conv_other. destruct ((32 <=? d_conv d) && (d_conv d <=? 126)).
+  - pose proof (outc_spec 37 b out e n Hb He) as H1. destruct (outc 37 b out e) as [b1 out1]. destruct H1 as (O1 & L1 & L2).
+    pose proof (outc_spec (d_conv d) b1 out1 e n O1 He) as H2. destruct (outc (d_conv d) b1 out1 e) as [b2 out2]. destruct H2 as (O2 & M1 & M2).
+    cbn. repeat split; [apply O2|apply O2|lia|lia|lia].
+  - cbn. repeat split; try apply Hb; lia.
+Qed.
+
+Lemma do_directive_spec base d args b out e n : okb b n -> e < n -> out <= e ->
+  exists b' out' args', do_directive base d args b out e = Some (b', out', args') /\
+    (base + n + N.max (d_width d) 16 < W64 -> okb b' n /\ out' <= e).
+Proof.
+  intros Hb He Ho. unfold do_directive.
+  set (r := if d_conv d =? 115 then conv_string d args b out e
+            else if (d_conv d =? 112) || (d_conv d =? 120) || (d_conv d =? 117) then conv_unsigned d args b out e
+            else if (d_conv d =? 105) || (d_conv d =? 100) then conv_signed d args b out e
+            else conv_other d args b out e).
+  assert (Hr : conv_ok n e out (d_width d) r).
+  { unfold r. destruct (d_conv d =? 115); [now apply conv_string_spec|].
+    destruct (_ || _ || _); [now apply conv_unsigned_spec|]. destruct (_ || _); [now apply conv_signed_spec|now apply conv_other_spec]. }
+  destruct r as [[[[[[b1 out1] args1] start] width] fill]|]; [|contradiction]. cbn in Hr. destruct Hr as (O1 & L1 & L2 & Lw).
+  destruct (fill_align base (d_alignright d) fill start width b1 out1 e) as [b2 out2] eqn:Ef.
+  exists b2, out2, args1. split; [reflexivity|]. intros Hw.
+  pose proof (fill_align_spec base (d_alignright d) fill start width b1 out1 e n O1 He L1 L2 ltac:(lia)) as H.
+  rewrite Ef in H. exact H.
+Qed.
+
+(* parsing a directive never lengthens the remaining format *)
+Lemma nextc_len inp c r : nextc inp = Some (c, r) -> (length r < length inp)%nat.
+Proof. destruct inp as [|x y]; cbn; [discriminate|]. destruct (x =? 0); [discriminate|]. intros H. inversion H. subst. cbn. lia. Qed.
+
+Lemma stage_len {A : Type} (cond : bool) (k k' : A) c inp a c' inp' :
+  (if cond then option_map (fun x => (k, x)) (nextc inp) else Some (k', (c, inp))) = Some (a, (c', inp')) ->
+  (length inp' <= length inp)%nat.
+Proof.
+  destruct cond; [|intros H; inversion H; lia].
+  destruct (nextc inp) as [[c1 r1]|] eqn:E; cbn; [|discriminate]. intros H. inversion H. subst. apply nextc_len in E. lia.
+Qed.
+
+Lemma width_loop_len inp : forall w c w' c' r, width_loop w c inp = Some (w', c', r) -> (length r <= length inp)%nat.
+Proof.
+  induction inp as [|x y IH]; intros w c w' c' r; cbn [width_loop].
+  - destruct (isdigit c); [discriminate|]. intros H. inversion H. lia.
+  - destruct (isdigit c).
+    + destruct (x =? 0); [discriminate|]. intros H. apply IH in H. cbn. lia.
+    + intros H. inversion H. lia.
+Qed.
+
+Lemma parse_directive_len c inp d : parse_directive c inp = Some d -> (length (d_rest d) <= length inp)%nat.
+Proof.
+  unfold parse_directive.
+  destruct (if (c =? 43) || (c =? 32) then option_map (fun x => (c, x)) (nextc inp) else Some (0, (c, inp))) as [[np [c1 i1]]|] eqn:E1; [|discriminate].
+  apply stage_len in E1.
+  destruct (if c1 =? 45 then option_map (fun x => (false, x)) (nextc i1) else Some (true, (c1, i1))) as [[ar [c2 i2]]|] eqn:E2; [|discriminate].
+  apply stage_len in E2.
+  destruct (if c2 =? 48 then option_map (fun x => (48, x)) (nextc i2) else Some (32, (c2, i2))) as [[fl [c3 i3]]|] eqn:E3; [|discriminate].
+  apply stage_len in E3.
+  destruct (if (49 <=? c3) && (c3 <=? 57) then match nextc i3 with None => None | Some (c', inp') => width_loop (c3 - 48) c' inp' end else Some (0, c3, i3)) as [[[w c4] i4]|] eqn:E4; [|discriminate].
+  assert (L4 : (length i4 <= length i3)%nat).
+  { destruct ((49 <=? c3) && (c3 <=? 57)); [|inversion E4; lia].
+    destruct (nextc i3) as [[c' inp']|] eqn:En; [|discriminate]. apply nextc_len in En. apply width_loop_len in E4. lia. }
+  destruct (if (c4 =? 122) || (c4 =? 116) || (c4 =? 76) then option_map (fun x => (c4, x)) (nextc i4)
+            else if c4 =? 108 then match nextc i4 with None => None | Some (c', inp') => if c' =? 108 then option_map (fun x => (76, x)) (nextc inp') else Some (108, (c', inp')) end
+            else Some (100, (c4, i4))) as [[nt [c5 i5]]|] eqn:E5; [|discriminate].
+  assert (L5 : (length i5 <= length i4)%nat).
+  { destruct ((c4 =? 122) || (c4 =? 116) || (c4 =? 76)).
+    - destruct (nextc i4) as [[c' inp']|] eqn:En; cbn in E5; [|discriminate]. inversion E5; subst. apply nextc_len in En. lia.
+    - destruct (c4 =? 108); [|inversion E5; lia].
+      destruct (nextc i4) as [[c' inp']|] eqn:En; [|discriminate]. apply nextc_len in En.
+      destruct (c' =? 108); [|inversion E5; subst; lia].
+      destruct (nextc inp') as [[c'' inp'']|] eqn:En2; cbn in E5; [|discriminate]. inversion E5; subst. apply nextc_len in En2. lia. }
+  intros H. inversion H. cbn. lia.
+Qed.
+
+(* the largest field width written in a format (the parse does not depend on arguments or buffer) *)
+Fixpoint fmt_maxw_loop (fuel : nat) (inp : bytes) (acc : N) : N :=
+  match fuel with
+  | O => acc
+  | S f =>
+    match nextc inp with
+    | None => acc
+    | Some (c, inp) =>
+      if negb (c =? 37) then fmt_maxw_loop f inp acc
+      else match nextc inp with
+           | None => acc
+           | Some (c, inp) =>
+             match parse_directive c inp with
+             | None => acc
+             | Some d => fmt_maxw_loop f (d_rest d) (N.max acc (d_width d))
+             end
+           end
+    end
+  end.
+Definition fmt_maxw (fmt : bytes) : N := fmt_maxw_loop (S (length fmt)) fmt 0.
+
+Lemma fmt_maxw_loop_ge fuel : forall inp acc, acc <= fmt_maxw_loop fuel inp acc.
+Proof.
+  induction fuel as [|f IH]; intros inp acc; cbn [fmt_maxw_loop]; [lia|].
+  destruct (nextc inp) as [[c i1]|]; [|lia]. destruct (negb (c =? 37)); [apply IH|].
+  destruct (nextc i1) as [[c2 i2]|]; [|lia]. destruct (parse_directive c2 i2) as [d|]; [|lia].
+  specialize (IH (d_rest d) (N.max acc (d_width d))). lia.
+Qed.
+
+Lemma vs_loop_spec base e n fuel : forall inp args b out acc,
+  okb b n -> e < n -> out <= e -> (length inp < fuel)%nat ->
+  base + n + N.max (fmt_maxw_loop fuel inp acc) 16 < W64 ->
+  exists r out', vs_loop fuel base inp args b out e = Some (r, out') /\ okb r n /\ out' <= e.
+Proof.
+  induction fuel as [|f IH]; intros inp args b out acc Hb He Ho Hl Hw; [lia|].
+  cbn [vs_loop]. cbn [fmt_maxw_loop] in Hw.
+  destruct (e <=? out); [eauto|].
+  destruct (nextc inp) as [[c i1]|] eqn:E1; [|eauto]. apply nextc_len in E1.
+  destruct (negb (c =? 37)).
+  - assert (H1 : let '(b1, out1) := (if printable c then outc c b out e else (b, out)) in okb b1 n /\ out1 <= e).
+    { destruct (printable c); [|split; assumption]. pose proof (outc_spec c b out e n Hb He) as H.
+      destruct (outc c b out e). destruct H as (A & B & C). split; [exact A|now apply C]. }
+    destruct (if printable c then outc c b out e else (b, out)) as [b1 out1]. destruct H1 as [O1 L1].
+    apply (IH i1 args b1 out1 acc); try assumption. lia.
+  - destruct (nextc i1) as [[c2 i2]|] eqn:E2; [|eauto]. apply nextc_len in E2.
+    destruct (parse_directive c2 i2) as [d|] eqn:Ep; [|eauto]. apply parse_directive_len in Ep.
+    destruct (do_directive_spec base d args b out e n Hb He Ho) as (b1 & out1 & args1 & Ed & Hs).
+    rewrite Ed. pose proof (fmt_maxw_loop_ge f (d_rest d) (N.max acc (d_width d))) as Hge.
+    destruct Hs as [O1 L1]; [lia|].
+    apply (IH (d_rest d) args1 b1 out1 (N.max acc (d_width d))); try assumption. lia.
+Qed.
+
+Lemma vsnprintf_lemma base fmt args b bufsize :
+  blen b = bufsize -> fault b = false -> base + bufsize + N.max (fmt_maxw fmt) 16 < W64 ->
+  exists r ret, vsnprintf base b bufsize fmt args = Some (r, ret) /\
+    fault r = false /\ blen r = bufsize /\
+    (bufsize = 0 -> r = b /\ ret = 0) /\
+    (0 < bufsize -> ret < bufsize /\ bget r ret = 0).
+Proof.
+  intros Hl Hf Hw. unfold vsnprintf. destruct (bufsize =? 0) eqn:E0.
+  - apply N.eqb_eq in E0. exists b, 0. repeat split; try assumption; lia.
+  - apply N.eqb_neq in E0.
+    assert (Hb : okb (bput b (bufsize - 1) 0) bufsize) by (apply okb_bput; [split; assumption|lia]).
+    destruct (vs_loop_spec base (bufsize - 1) bufsize (S (length fmt)) fmt args (bput b (bufsize - 1) 0) 0 0 Hb) as (r & out & Ev & Or & Lo);
+      [lia|lia|lia|exact Hw|].
+    rewrite Ev. exists (bput r out 0), out.
+    destruct (okb_bput r bufsize out 0 Or ltac:(lia)) as [F L].
+    repeat split; try assumption; try lia.
+    apply bget_bput_eq. destruct Or as [_ Lr]. lia.
+Qed.
+
+(* ------------------------------------------------------------------------------------------ *)
+(* the delayed output buffer                                                                   *)
+(* ------------------------------------------------------------------------------------------ *)
+Lemma copy_loop_spec k : forall src b d n, okb b n -> d + N.of_nat k <= n -> okb (copy_loop src k b d) n.
+Proof.
+  induction k as [|k IH]; intros src b d n Hb Hd; cbn [copy_loop]; [exact Hb|].
+  apply IH; [apply okb_bput; [exact Hb|lia]|lia].
+Qed.
+
+Lemma MAX_DELAY_val : MAX_DELAY = 16384.
+Proof. reflexivity. Qed.
+
+Lemma out_buf_msg_lemma b len msg :
+  okb b (MAX_DELAY + 1) -> len < W64 -> strlen msg + MAX_DELAY < W64 ->
+  let '(b', len') := out_buf_msg (b, len) msg in okb b' (MAX_DELAY + 1) /\ len' < W64.
+Proof.
+  intros Hb Hl Hm. unfold out_buf_msg. rewrite MAX_DELAY_val in *.
+  destruct (16384 <=? len) eqn:E1; [split; assumption|]. apply N.leb_gt in E1.
+  destruct (strlen msg =? 0); [split; assumption|].
+  assert (Hw : wadd len (strlen msg) = len + strlen msg) by (apply wadd_small; lia).
+  rewrite Hw. replace (16384 <=? len) with false by (symmetry; apply N.leb_gt; lia).
+  split; [|lia].
+  apply copy_loop_spec; [exact Hb|].
+  destruct (16384 <=? len + strlen msg) eqn:E2; [apply N.leb_le in E2|apply N.leb_gt in E2]; lia.
+Qed.
+
+Lemma out_buf_flush_lemma b len nomore :
+  okb b (MAX_DELAY + 1) -> len < W64 ->
+  let '(b', len', shown) := out_buf_flush (b, len) nomore in okb b' (MAX_DELAY + 1) /\ len' < W64.
+Proof.
+  intros Hb Hl. unfold out_buf_flush. rewrite MAX_DELAY_val in *.
+  set (count := if 16384 <? len then 16384 else len).
+  assert (Hc : count <= 16384). { unfold count. destruct (16384 <? len) eqn:E; [|apply N.ltb_ge in E]; lia. }
+  split; [|apply wrap_lt].
+  destruct (negb nomore); [apply okb_bput; [|lia]|]; apply okb_bput; try exact Hb; lia.
+Qed.
+
+(* any sequence of messages and flushes *)
+Inductive out_op := OMsg (msg : bytes) | OFlush (no_more_buf : bool).
+Definition out_step (st : buf * N) (o : out_op) : buf * N :=
+  match o with OMsg m => out_buf_msg st m | OFlush nm => fst (out_buf_flush st nm) end.
+Definition out_op_ok (o : out_op) : Prop := match o with OMsg m => strlen m + MAX_DELAY < W64 | OFlush _ => True end.
+
+Lemma out_buf_bounded_lemma ops : forall b len,
+  okb b (MAX_DELAY + 1) -> len < W64 -> Forall out_op_ok ops ->
+  let '(b', len') := fold_left out_step ops (b, len) in okb b' (MAX_DELAY + 1) /\ len' < W64.
+Proof.
+  induction ops as [|o r IH]; intros b len Hb Hl Hok; cbn [fold_left]; [split; assumption|].
+  inversion Hok as [|? ? Ho Hr]; subst.
+  assert (H : let '(b1, len1) := out_step (b, len) o in okb b1 (MAX_DELAY + 1) /\ len1 < W64).
+  { destruct o as [m|nm]; cbn [out_step].
+    - now apply out_buf_msg_lemma.
+    - pose proof (out_buf_flush_lemma b len nm Hb Hl) as H. destruct (out_buf_flush (b, len) nm) as [[b1 len1] sh]. exact H. }
+  destruct (out_step (b, len) o) as [b1 len1]. destruct H as [O1 L1]. now apply IH.
+Qed.
+
+(* ------------------------------------------------------------------------------------------ *)
+(* mi_buffered_out: buffer of count+1 bytes, count > 0                                         *)
+(* ------------------------------------------------------------------------------------------ *)
+Lemma buffered_out_lemma msg : forall count b used outl,
+  0 < count -> okb b (count + 1) -> used <= count ->
+  let '(b', used', outl') := buffered_out msg count (b, used, outl) in okb b' (count + 1) /\ used' <= count.
+Proof.
+  induction msg as [|c r IH]; intros count b used outl Hc Hb Hu; cbn [buffered_out]; [split; assumption|].
+  destruct (c =? 0); [split; assumption|]. cbn [fst snd].
+  set (st1 := if count <=? used then buffered_flush (b, used, outl) else (b, used, outl)).
+  assert (H1 : let '(b1, used1, o1) := st1 in okb b1 (count + 1) /\ used1 < count).
+  { unfold st1. destruct (count <=? used) eqn:E; [apply N.leb_le in E|apply N.leb_gt in E].
+    - cbn [buffered_flush]. split; [apply okb_bput; [exact Hb|lia]|lia].
+    - split; [exact Hb|lia]. }
+  destruct st1 as [[b1 used1] o1]. destruct H1 as [O1 L1].
+  set (st2 := if c =? 10 then buffered_flush (bput b1 used1 c, used1 + 1, o1) else (bput b1 used1 c, used1 + 1, o1)).
+  assert (H2 : let '(b2, used2, o2) := st2 in okb b2 (count + 1) /\ used2 <= count).
+  { unfold st2. assert (Op : okb (bput b1 used1 c) (count + 1)) by (apply okb_bput; [exact O1|lia]).
+    destruct (c =? 10).
+    - cbn [buffered_flush]. split; [apply okb_bput; [exact Op|lia]|lia].
+    - split; [exact Op|lia]. }
+  destruct st2 as [[b2 used2] o2]. destruct H2 as [O2 L2]. now apply IH.
+Qed.
+
+(* ------------------------------------------------------------------------------------------ *)
+(* mi_heap_buf_print                                                                           *)
+(* ------------------------------------------------------------------------------------------ *)
+(* invariant of mi_heap_buf_t: buffer of exactly `size` bytes, used < size, and the text is
+   0-terminated within the size *)
+Definition hinv (h : hbuf) : Prop :=
+  okb (h_buf h) (h_size h) /\ h_used h < h_size h /\ h_size h < W64 /\ exists i, i < h_size h /\ bget (h_buf h) i = 0.
+
+Lemma heap_buf_expand_lemma h grow : okb (h_buf h) (h_size h) -> 0 < h_size h -> h_size h < W64 ->
+  let '(ok, h') := heap_buf_expand h grow in
+  okb (h_buf h') (h_size h') /\ h_used h' = h_used h /\ h_size h' < W64 /\
+  h_can_realloc h' = h_can_realloc h /\
+  (ok = false -> h_size h' = h_size h /\ bget (h_buf h') (h_size h - 1) = 0) /\
+  (ok = true -> h_size h' = 2 * h_size h /\ h_can_realloc h = true).
+Proof.
+  intros Hb Hs Hw. unfold heap_buf_expand. apply N.ltb_lt in Hs. rewrite Hs. apply N.ltb_lt in Hs.
+  assert (Hp : okb (bput (h_buf h) (h_size h - 1) 0) (h_size h)) by (apply okb_bput; [exact Hb|lia]).
+  assert (Hz : bget (bput (h_buf h) (h_size h - 1) 0) (h_size h - 1) = 0) by (apply bget_bput_eq; destruct Hb; lia).
+  cbn [h_size h_can_realloc h_used h_buf].
+  destruct ((SIZE_MAX_ / 2 <? h_size h) || negb (h_can_realloc h)) eqn:E.
+  - cbn [h_size h_can_realloc h_used h_buf]. repeat split; try apply Hp; try assumption; discriminate.
+  - apply orb_false_elim in E as [E1 E2]. apply N.ltb_ge in E1. apply negb_false_iff in E2.
+    destruct grow; cbn [negb].
+    + replace (h_size h =? 0) with false by (symmetry; apply N.eqb_neq; lia).
+      cbn [h_size h_can_realloc h_used h_buf].
+      assert (Hsm : h_size h <= 9223372036854775807).
+      { assert (SIZE_MAX_ / 2 = 9223372036854775807) by reflexivity. lia. }
+      repeat split; try discriminate.
+      * apply Hp.
+      * unfold blen. cbn [bdata]. rewrite lenN_app, lenN_repeatN. destruct Hp as [_ Lp]. unfold blen in Lp. rewrite Lp. lia.
+      * rewrite W64_val. lia.
+      * now rewrite E2.
+      * exact E2.
+    + cbn [h_size h_can_realloc h_used h_buf]. repeat split; try apply Hp; try assumption; discriminate.
+Qed.
+
+Lemma heap_buf_print_loop_lemma msg : forall h grows,
+  okb (h_buf h) (h_size h) -> h_used h < h_size h -> h_size h < W64 ->
+  let '(ok, h', grows') := heap_buf_print_loop msg h grows in
+  okb (h_buf h') (h_size h') /\ h_used h' < h_size h' /\ h_size h' < W64 /\ h_can_realloc h' = h_can_realloc h /\
+  (h_can_realloc h = false -> h_size h' = h_size h) /\
+  (ok = false -> bget (h_buf h') (h_size h' - 1) = 0).
+Proof.
+  induction msg as [|c r IH]; intros h grows Hb Hu Hw; cbn [heap_buf_print_loop].
+  - split; [exact Hb|]. split; [exact Hu|]. split; [exact Hw|]. split; [reflexivity|]. split; [reflexivity|discriminate].
+  - destruct (c =? 0); [split; [exact Hb|]; split; [exact Hu|]; split; [exact Hw|]; split; [reflexivity|]; split; [reflexivity|discriminate]|].
+    assert (Hadd : wadd (h_used h) 1 = h_used h + 1) by (apply wadd_small; lia). rewrite Hadd.
+    destruct (h_size h <=? h_used h + 1) eqn:E.
+    + pose proof (heap_buf_expand_lemma h (hd false grows) Hb ltac:(lia) Hw) as He.
+      destruct (heap_buf_expand h (hd false grows)) as [ok h1].
+      destruct He as (O1 & U1 & W1 & C1 & F1 & T1).
+      destruct ok; cbn [negb].
+      * destruct (T1 eq_refl) as [S1 R1].
+        set (h2 := mkh (bput (h_buf h1) (h_used h1) c) (h_size h1) (h_used h1 + 1) (h_can_realloc h1)).
+        specialize (IH h2 (tl grows)). cbn [h2 h_buf h_size h_used h_can_realloc] in IH.
+        destruct (heap_buf_print_loop r h2 (tl grows)) as [[ok h'] grows'].
+        destruct IH as (A1 & A2 & A3 & A4 & A5 & A6); [apply okb_bput; [exact O1|lia]|lia|exact W1|].
+        split; [exact A1|]. split; [exact A2|]. split; [exact A3|]. split; [congruence|].
+        split; [intros Hc; congruence|exact A6].
+      * destruct (F1 eq_refl) as [Fs Fz].
+        split; [exact O1|]. split; [lia|]. split; [exact W1|]. split; [exact C1|]. split; [intros _; exact Fs|].
+        intros _. rewrite Fs. exact Fz.
+    + apply N.leb_gt in E. cbn [negb].
+      set (h2 := mkh (bput (h_buf h) (h_used h) c) (h_size h) (h_used h + 1) (h_can_realloc h)).
+      specialize (IH h2 grows). cbn [h2 h_buf h_size h_used h_can_realloc] in IH.
+      destruct (heap_buf_print_loop r h2 grows) as [[ok h'] grows'].
+      apply IH; [apply okb_bput; [exact Hb|lia]|lia|exact Hw].
+Qed.
+
+Lemma heap_buf_bounded_lemma h msg grows : hinv h ->
+  let '(h', grows') := heap_buf_print h msg grows in
+  hinv h' /\ (h_can_realloc h = false -> h_size h' = h_size h) /\ h_can_realloc h' = h_can_realloc h.
+Proof.
+  intros (Hb & Hu & Hw & Hz). unfold heap_buf_print.
+  destruct ((h_size h <=? wadd (h_used h) 1) && negb (h_can_realloc h)).
+  - split; [split; [exact Hb|]; split; [exact Hu|]; split; [exact Hw|exact Hz]|]. split; reflexivity.
+  - pose proof (heap_buf_print_loop_lemma msg h grows Hb Hu Hw) as H.
+    destruct (heap_buf_print_loop msg h grows) as [[ok h'] grows'].
+    destruct H as (A1 & A2 & A3 & A4 & A5 & A6).
+    destruct ok.
+    + cbn [h_buf h_size h_used h_can_realloc]. split; [|split; assumption].
+      unfold hinv. cbn [h_buf h_size h_used h_can_realloc].
+      split; [apply okb_bput; [exact A1|exact A2]|]. split; [exact A2|]. split; [exact A3|].
+      exists (h_used h'). split; [exact A2|]. apply bget_bput_eq. destruct A1 as [_ L]. lia.
+    + split; [|split; assumption]. split; [exact A1|]. split; [exact A2|]. split; [exact A3|].
+      exists (h_size h' - 1). split; [lia|]. now apply A6.
+Qed.
+
+(* ------------------------------------------------------------------------------------------ *)
+(* statements in the form used by Properties/C20.v                                             *)
+(* ------------------------------------------------------------------------------------------ *)
+Lemma nonul_nil_iff u : nonul u = true -> (hd0 u = 0 <-> u = []).
+Proof. intros H. pose proof (nonul_hd0 u H) as E. destruct u; cbn in *; [tauto|]. apply N.eqb_neq in E. split; [tauto|discriminate]. Qed.
+
+Lemma parse_bool_words_lemma kib u : isbytes u = true -> nonul u = true ->
+  (parse_value kib u = PWord 1 <-> u = [] \/ In (map toupper u) true_words) /\
+  (parse_value kib u = PWord 0 <-> In (map toupper u) false_words).
+Proof.
+  intros Hb Hn.
+  pose proof (is_word_true_iff u Hb) as Ht. pose proof (is_word_false_iff u Hb) as Hf.
+  rewrite (cstr_nonul u Hn) in Ht, Hf. pose proof (nonul_nil_iff u Hn) as H0.
+  set (T := In (map toupper u) true_words) in *. set (F := In (map toupper u) false_words) in *.
+  assert (Hdis : T -> F -> False) by (apply words_disjoint).
+  unfold parse_value.
+  destruct (hd0 u =? 0) eqn:E0.
+  - apply N.eqb_eq in E0. apply H0 in E0. cbn [orb].
+    assert (NF : ~ F). { unfold F. rewrite E0. cbn. intros [H|[H|[H|[H|[]]]]]; discriminate. }
+    split; split; intros H; [now left|reflexivity|discriminate|contradiction].
+  - apply N.eqb_neq in E0. cbn [orb].
+    assert (Nn : u <> []) by (intros E; apply E0; now apply H0).
+    destruct (is_word u words_true) eqn:Et.
+    + assert (It : T) by now apply Ht.
+      split; split; intros H; [now right|reflexivity|discriminate|exfalso; now apply Hdis].
+    + assert (Nt : ~ T) by (intros I; apply Ht in I; discriminate).
+      destruct (is_word u words_false) eqn:Ef.
+      * assert (If : F) by now apply Hf.
+        split; split; intros H; [discriminate|destruct H; contradiction|exact If|reflexivity].
+      * assert (Nf : ~ F) by (intros I; apply Hf in I; discriminate).
+        destruct (strtol10 u) as [[v e] conv]. destruct (if conv && kib then parse_size_suffix v e else (v, e)) as [v' e'].
+        destruct (hd0 e' =? 0); split; split; intros H; try discriminate; try contradiction; destruct H; contradiction.
+Qed.
+
+Lemma clamp_long_spec v :
+  ((LONG_MAX_ < v)%Z -> clamp_long v = LONG_MAX_) /\
+  ((v < LONG_MIN_)%Z -> clamp_long v = LONG_MIN_) /\
+  ((LONG_MIN_ <= v <= LONG_MAX_)%Z -> clamp_long v = v).
+Proof.
+  unfold clamp_long. assert (LONG_MIN_ < LONG_MAX_)%Z by reflexivity.
+  destruct (LONG_MAX_ <? v)%Z eqn:E1; [apply Z.ltb_lt in E1|apply Z.ltb_ge in E1];
+  destruct (v <? LONG_MIN_)%Z eqn:E2; [apply Z.ltb_lt in E2|apply Z.ltb_ge in E2| apply Z.ltb_lt in E2|apply Z.ltb_ge in E2];
+  repeat split; intros; try reflexivity; lia.
+Qed.
+
+Lemma parse_decimal_lemma ws sg ds :
+  forallb isspace ws = true -> is_sign sg -> ds <> [] -> forallb isdigit ds = true ->
+  let u := ws ++ sg ++ ds in
+  u <> w_1 -> u <> w_0 ->
+  parse_value false u = PNum (clamp_long (sign_apply sg (decval ds))).
+Proof.
+  intros Hws Hsg Hne Hds u H1 H0.
+  assert (Eu : u = ws ++ sg ++ ds ++ []) by (unfold u; now rewrite app_nil_r).
+  destruct (grammar_bytes false ws sg ds [] Hws Hsg Hds (or_introl eq_refl)) as [Hb Hn].
+  rewrite <- Eu in Hb, Hn.
+  pose proof (parse_number_value false ws sg ds [] Hws Hsg Hne Hds (or_introl eq_refl)) as H.
+  cbn zeta in H. rewrite <- Eu in H. now apply H.
+Qed.
+
+Lemma parse_size_lemma ws sg ds un tl :
+  forallb isspace ws = true -> is_sign sg -> ds <> [] -> forallb isdigit ds = true -> is_unit un -> is_tail tl ->
+  let u := ws ++ sg ++ ds ++ un ++ tl in
+  u <> w_1 -> u <> w_0 ->
+  parse_value true u = PNum (kib_value (clamp_long (sign_apply sg (decval ds))) (hd0 (un ++ tl))).
+Proof.
+  intros Hws Hsg Hne Hds Hun Htl u H1 H0.
+  assert (Hsuf : is_suffix true (un ++ tl)) by (right; split; [reflexivity|]; exists un, tl; repeat split; assumption).
+  destruct (grammar_bytes true ws sg ds (un ++ tl) Hws Hsg Hds Hsuf) as [Hb Hn].
+  pose proof (parse_number_value true ws sg ds (un ++ tl) Hws Hsg Hne Hds Hsuf) as H.
+  cbn zeta in H. now apply H.
+Qed.
+
+(* the value of a size option, spelled out per unit *)
+Lemma kib_value_units v :
+  let size := Z.to_N (Z.max 0 v) in
+  kib_value v 0  = Z.of_N (sat_kib ((size + 1023) / 1024)) /\   (* no unit: bytes, rounded up to KiB *)
+  kib_value v 66 = Z.of_N (sat_kib ((size + 1023) / 1024)) /\   (* "B" *)
+  kib_value v 73 = Z.of_N (sat_kib ((size + 1023) / 1024)) /\   (* "IB" *)
+  kib_value v 75 = Z.of_N (sat_kib size) /\                      (* K *)
+  kib_value v 77 = Z.of_N (sat_kib (size * 1024)) /\             (* M *)
+  kib_value v 71 = Z.of_N (sat_kib (size * 1048576)) /\          (* G *)
+  kib_value v 84 = Z.of_N (sat_kib (size * 1073741824)).         (* T *)
+Proof.
+  cbn zeta. unfold kib_value, sat_kib, unit_mult.
+  change MI_KiB_ with 1024. change MI_MiB_ with 1048576. change MI_GiB_ with 1073741824.
+  repeat split; try reflexivity.
+  change (75 =? 75) with true. cbn match. change (1 =? 0) with false. cbn match. now rewrite N.mul_1_r.
+Qed.
+
+(* every option of the generated table can be set through its environment variable: the complete
+   mi_option_get path (name construction, environment lookup, parsing, table update) evaluated on
+   table0 for a decimal, a boolean word, the empty string, a size with unit and a malformed value *)
+Definition env_entry (name value : bytes) : bytes :=
+  [77; 73; 77; 65; 76; 76; 79; 67; 95] ++ map toupper name ++ [61] ++ value.
+Definition get_via_env (i : nat) (value : bytes) : option (Z * N * bool) :=
+  match option_get table0 i [[80; 65; 84; 72; 61; 47]; env_entry (o_name (tget table0 i)) value] false (newbuf 170 65) (newbuf 170 65) with
+  | Some (v, t, f) => Some (v, o_init (tget t i), f)
+  | None => None
+  end.
+Definition result_is (r : option (Z * N * bool)) (v : Z) (init : N) : bool :=
+  match r with Some (v', i', f) => (v' =? v)%Z && (i' =? init) && negb f | None => false end.
+Definition check_env_option (i : nat) : bool :=
+  let d := o_value (tget table0 i) in
+  let kib := has_size_in_kib i in
+  result_is (get_via_env i [49; 50; 51; 52; 53]) (if kib then 13 else 12345) INITIALIZED &&      (* 12345 *)
+  result_is (get_via_env i [89; 101; 83]) 1 INITIALIZED &&                                        (* YeS *)
+  result_is (get_via_env i [111; 102; 102]) 0 INITIALIZED &&                                      (* off *)
+  result_is (get_via_env i []) 1 INITIALIZED &&                                                   (* empty *)
+  result_is (get_via_env i [32; 45; 55]) (if kib then 0 else -7) INITIALIZED &&                   (* " -7" *)
+  (if kib then result_is (get_via_env i [51; 71; 105; 66]) 3145728 INITIALIZED                    (* 3GiB *)
+   else result_is (get_via_env i [51; 71; 105; 66]) d DEFAULTED) &&
+  result_is (get_via_env i [49; 50; 120]) d DEFAULTED &&                                          (* 12x *)
+  result_is (get_via_env i [75]) d DEFAULTED &&                                                   (* K *)
+  result_is (get_via_env i [69]) d DEFAULTED.                                                     (* E *)
+
+Lemma env_sets_every_option_lemma : forallb check_env_option (seq 0 option_count) = true.
+Proof. vm_compute. reflexivity. Qed.
+
+Lemma table0_length : length table0 = option_count.
+Proof. reflexivity. Qed.
